@@ -186,6 +186,14 @@ package types
 //@ func (Group).ValidateStartable
 //@   ensures result == nil <==> (g.State != GroupClosed && g.State != GroupOpen)
 
+// ---- escrow ids (C05): a deployment's escrow account is ("deployment", text form of the id) ----
+//@ spec depXID(id: DeploymentID): str
+//@ func (DeploymentID).String
+//@   trusted
+//@   ensures result == depXID(id)
+//@ func EscrowAccountForDeployment
+//@   ensures result.Scope == "deployment" && result.XID == depXID(id)
+
 // ---- events (signature = abstract identity of the typed event; byte-level form under C16) ----
 //@ spec sigDeployment(kind: int, id: DeploymentID): str
 //@ spec sigGroup(kind: int, id: GroupID): str
@@ -220,6 +228,6 @@ package types
 //@   trusted
 //@   ensures evSig(result) == sigGroup(3, ev.ID)
 
-//@ property C04 := (Deployment).ID#*, (Group).ID#*, (GroupID).DeploymentID#*, MakeGroupID#*, (DeploymentID).Equals#*, (GroupID).Equals#*,
+//@ property C04 := EscrowAccountForDeployment#*, (Deployment).ID#*, (Group).ID#*, (GroupID).DeploymentID#*, MakeGroupID#*, (DeploymentID).Equals#*, (GroupID).Equals#*,
 //@                 (Group).ValidateClosable#*, (Group).ValidatePausable#*, (Group).ValidateStartable#*,
 //@                 NewEventDeploymentCreated#*, NewEventDeploymentUpdated#*, NewEventDeploymentClosed#*, NewEventGroupClosed#*, NewEventGroupPaused#*, NewEventGroupStarted#*
